@@ -218,10 +218,10 @@ def check_forced_gen(case):
 
 
 @st.composite
-def arbitrary_cases(draw, tier):
-    hi = 6 if tier == "quick" else 7
-    m = draw(st.integers(1, hi))
-    n = draw(st.integers(1, hi))
+def arbitrary_cases(draw, tier, size=None):
+    lo_, hi = size or (1, 6 if tier == "quick" else 7)
+    m = draw(st.integers(lo_, hi))
+    n = draw(st.sampled_from([m, m]) if size and draw(st.booleans()) else st.integers(lo_, hi))
     A = draw(gen.qmat(m, n, patterns=("generic", "generic", "int", "pure_imag", "axis", "sparse", "unit", "zero", "units", "units")))
     kind = draw(st.sampled_from(["plain", "plain", "zero_col", "dup_row", "scaled", "row_dominant", "col_dominant", "banded",
                                  "banded", "leading_triangle"]))
@@ -319,6 +319,8 @@ PROPERTY = Property(
                budget={"quick": 400, "thorough": 6000}),
         Clause("arbitrary", check_arbitrary, strategy=arbitrary_cases, budget={"quick": 600, "thorough": 8000},
                fuzz={"runs": 4000, "procs": 4}),
+        Clause("arbitrary_moderate_size", check_arbitrary, strategy=lambda tier: arbitrary_cases(tier, size=(9, 20 if tier == "quick" else 40)),
+               budget={"quick": 40, "thorough": 400}, shrink=False),
         Clause("arbitrary_long_dimension", check_arbitrary, strategy=long_lu_cases, budget={"quick": 32, "thorough": 320},
                shrink=False),
     ],
